@@ -12,8 +12,8 @@ CONSTANTS MaxBase, MaxFollow, Tier, Ops, MaxPairs
 Fold(ch) == IF ch = 2 THEN <<1>> ELSE <<ch>>
 MCDefaultDelim == <<58>>
 D == <<58>>
-PNames == IF Tier = "quick" THEN {<<1>>, <<2>>, <<3>>} ELSE {<<1>>, <<2>>, <<3>>, <<8>>}
-UNames == IF Tier = "quick" THEN {<<1>>, <<2>>, <<3>>} ELSE {<<1>>, <<2>>, <<3>>, <<8>>}
+PNames == IF Tier = "quick" THEN {<<>>, <<1>>, <<2>>, <<3>>} ELSE {<<>>, <<1>>, <<2>>, <<3>>, <<8>>}
+UNames == IF Tier = "quick" THEN {<<>>, <<1>>, <<2>>, <<3>>} ELSE {<<>>, <<1>>, <<2>>, <<3>>, <<8>>}
 Opt(S) == {{}} \cup {{x} : x \in S}
 ValidPool == {r \in {Rec(p, u, ps, us, NoPat) : p \in PNames, u \in UNames, ps \in Opt(PNames), us \in Opt(UNames)} : ValidRec(r)}
 SimplePool == {r \in ValidPool : r.ps = {} \/ r.us = {}}
@@ -52,7 +52,7 @@ MCNext ==
   \/ /\ Derived /\ last = Ok /\ Cardinality({j \in 1..Len(hist) : hist[j].k = "add"}) < MaxFollow
      /\ \E r \in FollowPool, mg \in (IF Tier = "quick" THEN {TRUE} ELSE BOOLEAN) : AAdd(Len(convs), r, TRUE, mg, "record")
 MCSpec == Init /\ [][MCNext]_vars
-MCView == <<convs, last, IF Len(hist) = 0 THEN <<>> ELSE hist[Len(hist)]>>
+MCView == <<convs, last, sigs, IF Len(hist) = 0 THEN <<>> ELSE hist[Len(hist)]>>
 
 LastOp == hist[Len(hist)]
 Res == [out |-> last, conv |-> IF last = Ok THEN convs[Len(convs)] ELSE EmptyConv(D)]
